@@ -376,6 +376,15 @@ def run(res, tier, seed):
         add('mpboundary ' + C.hx(ct), 'boundary', (b, 'quoted' if quoted else 'plain'))
         add('mpparse ' + C.hx(browser_body(enc_parts(ps), b.encode())) + ' ' + C.hx(b), 'browser', (ps, b))
 
+    # 6b. every boundary LENGTH RFC 2046 allows (1..70 characters), plain and quoted: extract_boundary gives it back and the browser-shaped body parses
+    for n in range(1, 71):
+        for quoted in (False, True):
+            b = ''.join(rng.choice(ALNUM) for _ in range(n)) if not quoted else (rng.choice(ALNUM) + ''.join(rng.choice(BCHARS_NOSPACE) for _ in range(n - 2)) + rng.choice(ALNUM))[:n]
+            ps = [([('Content-Disposition', 'form-data; name="a"')], b'v')]
+            if not ok_boundary(b, ps): continue
+            ct = 'multipart/form-data; boundary=' + ('"' + b + '"' if quoted else b)
+            add('mpboundary ' + C.hx(ct), 'boundary', (b, 'quoted' if quoted else 'plain'))
+            add('mpparse ' + C.hx(browser_body(enc_parts(ps), b.encode())) + ' ' + C.hx(b), 'browser', (ps, b))
     # 7. unstructured: line soups and mutations (differential only, "never a panic")
     nsoup = 1200 if quick else 40000
     for i in range(nsoup):
